@@ -55,6 +55,10 @@ type Scenario struct {
 	// over another window of the same expression (same end, same step) are asked at the same time by two
 	// callers; each must get what it gets when asked alone. 0 = no such phase
 	TwinLookbackS int64 `json:"twin_lookback_s,omitempty"`
+	// LaterS: the main query is asked again that many (whole) seconds later - same lookback, so every
+	// time moves by that much - while the cache still holds the first answer's slices (watch mode, or two
+	// checks of one run a moment apart); it must get what it gets when asked at that moment on a cold cache
+	LaterS int64 `json:"later_s,omitempty"`
 }
 
 var steps = []int64{10, 15, 30, 60, 60, 300, 300, 300, 420, 660, 900, 1800, 2700, 3600, 5400, 7200, 9000, 10800, 14400, 14460, 18000, 21600}
@@ -167,6 +171,19 @@ func draw(rt *rapid.T) Scenario {
 		}
 		if sc.TwinLookbackS > 0 && rapid.IntRange(0, 3).Draw(rt, "twinwholesec") > 0 {
 			sc.EndOffsetNs -= sc.EndOffsetNs % int64(time.Second) // see run(): windows are compared on whole-second ends only
+		}
+	}
+	if rapid.IntRange(0, 3).Draw(rt, "later") == 0 {
+		switch rapid.IntRange(0, 2).Draw(rt, "laterkind") {
+		case 0:
+			sc.LaterS = rapid.Int64Range(1, 2*sc.StepS).Draw(rt, "laterS")
+		case 1: // around half a step and a whole step
+			sc.LaterS = sc.StepS/2 + rapid.Int64Range(-2, 2).Draw(rt, "laterJ")
+		default:
+			sc.LaterS = sc.StepS + rapid.Int64Range(-2, 2).Draw(rt, "laterJ")
+		}
+		if sc.LaterS < 1 {
+			sc.LaterS = 1
 		}
 	}
 	if rapid.IntRange(0, 9).Draw(rt, "faulty") < 2 {
@@ -326,14 +343,25 @@ type oneResult struct {
 
 // runOnce: lookbackS is the window of the query whose result is returned in ranges; with twinS > 0 the cache is
 // first filled by that query, then it and a query over twinS are asked again concurrently by two callers.
-func runOnce(t *testing.T, sc *Scenario, sched detsim.SchedConfig, record bool, stepS, warmStepS, lookbackS, twinS int64) oneResult {
+func runOnce(t *testing.T, sc *Scenario, sched detsim.SchedConfig, record bool, stepS, warmStepS, lookbackS, twinS int64, shifts ...int64) oneResult {
+	// shifts[0]: the queries end that many seconds after the scenario's end; shifts[1]: instead of a concurrent
+	// second window, the same window is asked again that many seconds later (sequentially, warm cache)
+	var endShiftS, laterS int64
+	if len(shifts) > 0 {
+		endShiftS = shifts[0]
+	}
+	if len(shifts) > 1 {
+		laterS = shifts[1]
+	}
 	var res oneResult
 	res.live = true
 	endAbs := base.Add(time.Duration(sc.EndOffsetNs))
 	be := &presenceBackend{sc: sc, endAbsNs: endAbs.UnixNano(), grids: map[int64]struct{}{}}
-	mkRange := func(lb int64, st int64) absRange {
-		return absRange{start: endAbs.Add(-time.Duration(lb) * time.Second), end: endAbs, step: time.Duration(st) * time.Second}
+	mkRangeAt := func(lb, st, shift int64) absRange {
+		e := endAbs.Add(time.Duration(shift) * time.Second)
+		return absRange{start: e.Add(-time.Duration(lb) * time.Second), end: e, step: time.Duration(st) * time.Second}
 	}
+	mkRange := func(lb int64, st int64) absRange { return mkRangeAt(lb, st, endShiftS) }
 	res.leak = detsim.Bubble(t, func() {
 		s := detsim.NewSched(sched, record, detsim.States)
 		verifhook.Yield = s.HookYield
@@ -377,6 +405,15 @@ func runOnce(t *testing.T, sc *Scenario, sched detsim.SchedConfig, record bool, 
 			if rr != nil {
 				res.ranges = rr.Series.Ranges
 			}
+			if laterS > 0 && err == nil {
+				// the cache is warm now: the same window, a moment later
+				time.Sleep(time.Duration(laterS) * time.Second)
+				rl, errl := fg.RangeQuery(context.Background(), "m", mkRangeAt(lookbackS, stepS, endShiftS+laterS))
+				res.twinErr = errl
+				if rl != nil {
+					res.twin = rl.Series.Ranges
+				}
+			}
 			if twinS > 0 && err == nil {
 				// the cache is warm now: both windows at once
 				var wg sync.WaitGroup
@@ -419,7 +456,7 @@ func runOnce(t *testing.T, sc *Scenario, sched detsim.SchedConfig, record bool, 
 		}()
 		select {
 		case <-done:
-		case <-time.After(2 * time.Hour):
+		case <-time.After(2*time.Hour + time.Duration(laterS)*time.Second):
 			res.live = false
 		}
 		res.simNs = int64(time.Since(t0))
@@ -625,6 +662,29 @@ func run(t *testing.T, sc Scenario, record bool) *detsim.Outcome {
 			}
 			if both.twin.String() != alone.ranges.String() {
 				out.AddViolation("concurrent-result-differs", fmt.Sprintf("%s: the %ds window differs from what the same query returned alone:\n  alone: %s\n  now:   %s", who, sc.TwinLookbackS, alone.ranges.String(), both.twin.String()))
+			}
+		}
+	}
+	if sc.LaterS > 0 && sc.Fault == nil && firstStr != "" && len(out.Violations) == 0 && sc.EndOffsetNs%int64(time.Second) == 0 {
+		// what the later query yields on a cold cache, and what it yields right after the first one
+		alone := runOnce(t, &sc, sc.Scheds[0], false, sc.StepS, 0, sc.LookbackS, 0, sc.LaterS)
+		both := runOnce(t, &sc, sc.Scheds[len(sc.Scheds)-1], false, sc.StepS, 0, sc.LookbackS, 0, 0, sc.LaterS)
+		out.Sched.Decisions += alone.stats.Decisions + both.stats.Decisions
+		trace = trace*1099511628211 ^ both.stats.Trace
+		out.SimNanos += alone.simNs + both.simNs
+		who := fmt.Sprintf("the same query again %ds later on a warm cache (lookback=%ds, step=%ds, first end=%s, concurrency=%d)", sc.LaterS, sc.LookbackS, sc.StepS, endAbs.Format(time.RFC3339Nano), sc.Concurrency)
+		switch {
+		case !alone.live || !both.live:
+			out.AddViolation("liveness", who+": RangeQuery did not return (leak: "+alone.leak+both.leak+")")
+		case alone.err != nil || both.err != nil || both.twinErr != nil:
+			out.AddViolation("unexpected-error", fmt.Sprintf("%s: %v / %v / %v", who, alone.err, both.err, both.twinErr))
+		default:
+			out.Probes["asked_again_later"]++
+			sort.Stable(alone.ranges)
+			sort.Stable(both.twin)
+			fmt.Fprintf(digest, "%s|", both.twin.String())
+			if both.twin.String() != alone.ranges.String() {
+				out.AddViolation("later-result-differs", fmt.Sprintf("%s: differs from what the same query returns at that moment on a cold cache:\n  cold: %s\n  warm: %s", who, alone.ranges.String(), both.twin.String()))
 			}
 		}
 	}
